@@ -6,6 +6,7 @@ package main
 // nil-vs-empty distinctions are the ones the chain can actually see.
 
 import (
+	"encoding/json"
 	"encoding/base64"
 	"fmt"
 	"math/rand"
@@ -276,6 +277,40 @@ func (e *didEnv) monC03UTF8() {
 		}
 		if _, err := e.ms.UpdateDID(g, um); err == nil {
 			return "fail #accepted-a-proof-made-over-different-content"
+		}
+		return "pass"
+	}))
+}
+
+// monC11Genesis evaluates C11 on a chain started from a hand-written genesis: an entry whose key is one DID and
+// whose (well-formed, active) document describes another must not get into the registry — the module's genesis
+// validation has to refuse it.
+func (e *didEnv) monC11Genesis() {
+	e.s.Emit("mon.c11.genesis-foreign-document", guard(func() string {
+		ka, kb := newDidKey("gen-a"), newDidKey("gen-b")
+		didA, didB := didtypes.NewDID(ka.pub), didtypes.NewDID(kb.pub)
+		vmID := didB + "#key1"
+		vm := &didtypes.VerificationMethod{Id: vmID, Type: didtypes.ES256K_2019, Controller: didB, PublicKeyBase58: kb.b58}
+		docB := didtypes.NewDIDDocument(didB, didtypes.WithVerificationMethods([]*didtypes.VerificationMethod{vm}),
+			didtypes.WithAuthentications([]didtypes.VerificationRelationship{rel(vmID)}))
+		w := didtypes.NewDIDDocumentWithSeq(&docB, 0)
+		gs := didtypes.GenesisState{Documents: map[string]*didtypes.DIDDocumentWithSeq{
+			didtypes.GenesisDIDDocumentKey{DID: didA}.Marshal(): &w}}
+		if err := gs.Validate(); err != nil {
+			return "pass #rejected-by-genesis-validation"
+		}
+		bz, err := e.c.App.AppCodec().MarshalJSON(&gs)
+		if err != nil {
+			return "pass #not-encodable"
+		}
+		c2, err := NewChain(memDB(), tmpHome(), nil, 0, map[string]json.RawMessage{didtypes.ModuleName: bz})
+		if err != nil {
+			return "pass #rejected-by-init-genesis"
+		}
+		c2.Begin(c2.Time)
+		d := c2.App.DidKeeper.GetDIDDocument(c2.DeliverCtx(), didA)
+		if d.Document != nil && !d.Document.Empty() && d.Document.Id != didA {
+			return "fail #registry-holds-a-document-about-another-did"
 		}
 		return "pass"
 	}))
@@ -679,6 +714,7 @@ func init() {
 		e := newDidEnv(s)
 		ids, rel := mkIdents()
 		e.monC03UTF8()
+		e.monC11Genesis()
 		for h := 0; h < n; h++ {
 			didHistory(e, rng, ids, rel, 15+rng.Intn(30))
 		}
